@@ -3,6 +3,7 @@ module github.com/xelaj/mtproto/zverif
 go 1.21
 
 require (
+	github.com/anishathalye/porcupine v1.3.0
 	github.com/pkg/errors v0.9.1
 	github.com/xelaj/errs v0.0.0-20200831133608-d1c11863e019
 	github.com/xelaj/go-dry v0.0.0-20210621215431-21c77821487c
